@@ -121,6 +121,9 @@ impl<T: ToSV> ToSV for &T {
     proof fn lemma_rt(&self) {}
 }
 
+/// soroban_sdk::ConversionError (only its shape matters)
+pub struct ConversionError;
+
 // ---- ghost world ----
 #[verifier::ext_equal]
 pub struct Call {
